@@ -478,7 +478,7 @@ def synth_ff_text(rnd):
     for li in range(nlinks):
         kind = rnd.choice(['bond+', 'bond+', 'angle', 'dihedral', 'gt', 'star', 'nonedge', 'pattern', 'molmeta', 'replace',
                            'remove', 'remove', 'override', 'explicit-order', 'choice', 'geom', 'star-intra', 'gt-intra', 'same-order',
-                           'three-orders', 'three-orders', 'geom-angle', 'pattern-single', 'single'])
+                           'three-orders', 'three-orders', 'geom-angle', 'pattern-single', 'single', 'remove-meta'])
         out.append('[ link ]')
         if kind == 'bond+':
             if rnd.random() < 0.5:
@@ -547,6 +547,13 @@ def synth_ff_text(rnd):
                 out += ['[ !bonds ]', 'A B', '[ edges ]', 'A B']
             if rnd.random() < 0.5:
                 out += ['[ bonds ]', 'A B 1 0.29 %d' % rnd.choice([3000, 4000])]
+        elif kind == 'remove-meta':
+            # a removal that names its target by the interaction's meta: of two bonds on the same atoms (the plain one, stored
+            # first, and an alternative version) only the one whose meta satisfies the condition goes; a condition nothing
+            # satisfies removes nothing
+            out += ['[ bonds ]', 'A +A 1 0.35 1250',
+                    '[ link ]', '[ bonds ]', 'A +A 1 0.41 650 {"version": 2%s}' % rnd.choice(['', ', "group": "alt"']),
+                    '[ link ]', '[ !bonds ]', 'A +A -- {"version": %d}' % rnd.choice([2, 2, 3]), '[ edges ]', 'A +A']
         elif kind == 'override':
             # the same bond as 'bond+' again: it replaces the earlier one; an explicit version 0 is the same as no version
             out += ['[ bonds ]', 'A +A 1 0.36 999' + rnd.choice(['', '', ' {"version": 0}'])]
